@@ -327,3 +327,14 @@ package coordinator
 //@   ensures no_shard_without_live_owner: result != nil ==> all(k, 0, len(a.shards), len(a.shards[k].Owners) > 0 ==> ex(j, 0, len(a.shards[k].Owners), !syncmap_has(iptr(), a.shards[k].Owners[j].NodeID)))
 //@   ensures buckets_clean: all(n, has(result, n) ==> !syncmap_has(iptr(), n))
 //@   modifies nothing
+
+// ---- C19: lock discipline of the coordinator (swept over every function of the package) ----
+//@ guarded clientPool.pool by mu
+//@ guarded PointsWriter.subPoints by mu
+//@ guarded pooledConn.unusable by mu
+//@ guarded boundedPool.conns by mu
+//@ guarded boundedPool.factory by mu
+
+// AddWriteSubscriber appends to subPoints without the lock: it is wired once while the server is assembled
+//@ func (*PointsWriter).AddWriteSubscriber
+//@   setup_only called once from cmd/influxd/run.NewServer while the server is assembled, before Open starts any goroutine
